@@ -126,6 +126,7 @@ def handleAgentOp (hid : String) (opIdx : Nat) (ticks : List Nat) (nLevels : Nat
     ((mo.zip ln.books).flatMap fun (m, i) => diffObs m i) ++
     (if mo.length != ln.books.length then ["n_assets"] else []) ++
     (((List.range ticks.length).map (modelEnvObs e')).zip ln.envs).flatMap (fun (m, i) => diffEnvObs m i) ++
+    hiddenDiffs e'.market.books ln.hidden ++
     (if g'.next.1.toNat != rngKey then ["agent_rng"] else [])
   match toks with
   | ["update", "PANIC"] =>
